@@ -51,7 +51,7 @@ CHECKS = {
     ),
     "C03": dict(
         engine="core",
-        category="other",
+        category="proof",
         text="Executable specification L0 of pest's semantics (lean/PestModel/Spec.lean) run by the Lean driver against the interpreter on core-operator grammars (trees and success/failure), plus exact correspondence of the L1 mirror; theorem interp_refines_spec pending.",
         design_ref="§6 C03",
         technique="hand-written Lean 4 model (spec/interp/gen/opt layers) tied to the code by differential correspondence; property oracle on the implementation; Lean theorems being added",
